@@ -3,30 +3,180 @@ package c14
 import (
 	"fmt"
 	"os"
+	"sort"
+	"strings"
 	"testing"
+	"time"
 
-	"github.com/mithrandie/csvq/lib/value"
+	"github.com/mithrandie/csvq/lib/parser"
+	"pgregory.net/rapid"
+
 	"verif/internal/fw"
 	"verif/internal/run"
 )
 
-func TestMain(m *testing.M) { fw.Main(m) }
+func fwWork(t *testing.T) string {
+	d := fw.WorkDir() + "/probe"
+	_ = os.MkdirAll(d, 0755)
+	return d
+}
 
-func TestProbe(t *testing.T) {
-	dir := fw.WorkDir() + "/probe"
-	os.MkdirAll(dir, 0755)
-	run.WriteFiles(dir, map[string]string{"t.csv": "id,i,f,s,d\n1,10,1.5,abc,2012-02-03 04:05:06\n2,-3,2.25,Def,2020-01-01\n3,,,,\n"})
-	prog, _ := os.ReadFile(os.Getenv("PROBE_SQL"))
-	for _, poison := range []bool{false, true} {
-		value.VerifPoison = poison
-		d0 := value.VerifDiscards
-		s, err := run.NewSess(run.Opt{Dir: dir, CPU: 2, CaptureOut: true})
-		if err != nil {
-			t.Fatal(err)
-		}
-		r := s.Exec(string(prog))
-		fmt.Printf("=== poison=%v err=%v discards=%d views=%d\n%s\n", poison, r.Err, value.VerifDiscards-d0, len(r.Views), s.Out.String())
-		s.Close()
+func writeTable(dir string, c progCase) error {
+	return run.WriteFiles(dir, map[string]string{"t.csv": c.csv()})
+}
+
+func newProbeSess(dir string) (*run.Sess, error) {
+	return run.NewSess(run.Opt{Dir: dir, CPU: 1, CaptureOut: true})
+}
+
+// TestDebugParse: which generated unit texts do not parse (development aid).
+func TestDebugParse(t *testing.T) {
+	if os.Getenv("C14_DEBUG") == "" {
+		t.Skip()
 	}
-	value.VerifPoison = false
+	seen := map[string]bool{}
+	n := 0
+	rapid.Check(t, func(rt *rapid.T) {
+		c := genCase(rt)
+		for i, u := range c.Units {
+			txt := u.text(i)
+			if _, _, err := parser.Parse(txt, "", false, false); err != nil {
+				key := err.Error()
+				if !seen[key] || n < 6 {
+					seen[key] = true
+					n++
+					fmt.Printf("=== %v\n%s\n", err, txt)
+				}
+			}
+		}
+	})
+}
+
+// TestDebugErrors: which runtime errors the generated programs stop with (development aid).
+func TestDebugErrors(t *testing.T) {
+	if os.Getenv("C14_DEBUG") == "" {
+		t.Skip()
+	}
+	counts := map[string]int{}
+	example := map[string]string{}
+	total := 0
+	timeSum, timeN := map[string]time.Duration{}, map[string]int{}
+	var slowest time.Duration
+	var slowCase string
+	defer func() {
+		for k := range timeSum {
+			fmt.Printf("time %s: n=%d avg=%v\n", k, timeN[k], timeSum[k]/time.Duration(timeN[k]))
+		}
+		fmt.Printf("slowest %v\n%s\n", slowest, slowCase)
+	}()
+	rapid.Check(t, func(rt *rapid.T) {
+		c := genCase(rt)
+		total++
+		t0 := time.Now()
+		o, v := checkProgram(c)
+		el := time.Since(t0)
+		tk := "few"
+		if c.N >= 160 {
+			tk = "many"
+		}
+		timeSum[tk] += el
+		timeN[tk]++
+		if el > slowest {
+			slowest = el
+			slowCase = c.program(true)
+		}
+		if v != nil {
+			k := "VIOLATION " + v.Sig
+			counts[k]++
+			example[k] = v.Msg
+			return
+		}
+		for _, cl := range o.Classes {
+			if strings.HasPrefix(cl, "program_error:") {
+				counts[cl]++
+			}
+		}
+		if lastErr != "" {
+			k := lastErr
+			if len(k) > 90 {
+				k = k[:90]
+			}
+			counts[k]++
+			example[k] = lastErr
+		}
+	})
+	fmt.Println("total", total)
+	for k, n := range counts {
+		fmt.Printf("%5d %s\n", n, k)
+	}
+	for k, m := range example {
+		if strings.HasPrefix(k, "VIOLATION") {
+			if len(m) > 7000 {
+				m = m[:7000]
+			}
+			fmt.Printf("----- %s\n%s\n", k, m)
+		}
+	}
+}
+
+// TestProbeSQL executes every line of $PROBE_SQL separately in one session (development aid).
+func TestProbeSQL(t *testing.T) {
+	if os.Getenv("PROBE_SQL") == "" {
+		t.Skip()
+	}
+	c := progCase{N: 8, CPU: 1, Base: [][]*string{{sp("0"), sp("10"), sp("1.5"), sp("abc"), sp("2012-02-03 04:05:06"), sp("2"), sp(`{"a":1}`), sp("true")}, {sp("1"), nil, nil, nil, nil, sp("0"), nil, nil}},
+		Vars: []string{"7", "2.5", "'str'", "DATETIME('2012-02-03 04:05:06')", "TRUE", "3"}, CurOn: "t", CurAt: 0}
+	dir := fwWork(t)
+	_ = writeTable(dir, c)
+	b, _ := os.ReadFile(os.Getenv("PROBE_SQL"))
+	s, err := newProbeSess(dir)
+	if err != nil {
+		t.Fatal(err)
+	}
+	defer s.Close()
+	if r := s.Exec(c.setup()); r.Err != nil {
+		t.Fatal(r.Err)
+	}
+	for _, ln := range strings.Split(string(b), "\n") {
+		if strings.TrimSpace(ln) == "" {
+			continue
+		}
+		s.Out.Reset()
+		r := s.Exec(ln)
+		fmt.Printf(">>> %s\nerr=%v\n%s\n", ln, r.Err, s.Out.String())
+	}
+}
+
+func sp(s string) *string { return &s }
+
+
+// TestDebugCensus: how often each function / operator / leaf kind is generated (development aid).
+func TestDebugCensus(t *testing.T) {
+	if os.Getenv("C14_DEBUG") == "" {
+		t.Skip()
+	}
+	counts := map[string]int{}
+	rapid.Check(t, func(rt *rapid.T) {
+		c := genCase(rt)
+		for _, u := range c.Uses {
+			counts[u]++
+		}
+	})
+	type kv struct {
+		k string
+		n int
+	}
+	var all []kv
+	for _, f := range append(append(append([]string{}, allFns...), aggFns...), anaFns...) {
+		if _, ok := counts[f]; !ok {
+			counts[f] = 0
+		}
+	}
+	for k, n := range counts {
+		all = append(all, kv{k, n})
+	}
+	sort.Slice(all, func(i, j int) bool { return all[i].n < all[j].n || all[i].n == all[j].n && all[i].k < all[j].k })
+	for _, e := range all {
+		fmt.Printf("%5d %s\n", e.n, e.k)
+	}
 }
